@@ -6,7 +6,7 @@ in : `run <prog> <args>`   prog = `(prog (<T>…) <stmt>…)`, args = `(args <o>
         stmt = `(asg x e)` | `(if t (<stmt>…) (<stmt>…))` | `(ret e)`
         expr = `(lit o)` | `(var x)` | `(tup e…)` | `(lst e…)` | `(sub e i)` | `(ite t a b)`
         test = `(isnone x)` | `(notnone x)` | `(not t)`
-     `cls <skeleton tokens>`   (Spec/D01.lean)       `binop <isAdd> <lTuple> <rTuple>`
+     `cls <skeleton tokens>`   (Spec/D01.lean)       `binop <isAdd> <lTuple> <rTuple>`     `call <shared> <seqForm> <valSeq>`     `conv <isListOrTuple> <seqForm> <valSeq>`
      `mem <o> <T>`
 out: run: `I <path>=<T>;… | F <flags> | X <path>=<o>;… | O <outcome> | A <argsOk>`  (path = indices joined by `.`, root first)
      cls: the classes, comma separated, `-` if none;   binop: `tupleConcat` or `-`;   mem: `1`/`0`
@@ -103,19 +103,19 @@ partial def pStmt (ts : Toks) : Option (Sk × Toks) :=
     match t.splitOn ":" with
     | ["a0"] => some (.a0, r) | ["a1"] => some (.a1, r) | ["o"] => some (.o, r)
     | ["br"] => some (.br, r) | ["co"] => some (.co, r) | ["ret"] => some (.ret, r) | ["rs"] => some (.rs, r)
-    | ["u", f] => some (.u (f == "1"), r)
+    | ["u", f] => do some (.u (← f.toNat?), r)
     | ["if", f] => do
       let (b, r) ← pBr r
       let (e, r) ← pBr r
-      some (.ite (f == "1") b e, r)
+      some (.ite (← f.toNat?) b e, r)
     | ["wh", a, f] => do
       let (b, r) ← pBr r
       let (e, r) ← pBr r
-      some (.loop (a == "1") (f == "1") b e, r)
+      some (.loop (a == "1") (← f.toNat?) b e, r)
     | ["for"] => do
       let (b, r) ← pBr r
       let (e, r) ← pBr r
-      some (.loop false false b e, r)
+      some (.loop false 0 b e, r)
     | ["try"] => do
       let (b, r) ← pBr r
       match r with
@@ -129,7 +129,7 @@ partial def pStmt (ts : Toks) : Option (Sk × Toks) :=
       match r with
       | "{" :: r => do
         let (cs, r) ← pBrs r []
-        some (.mt (i == "1") (f == "1") cs, r)
+        some (.mt (i == "1") (← f.toNat?) cs, r)
       | _ => none
     | _ => none
 end
@@ -151,6 +151,10 @@ def handle (line : String) : String :=
   | some [.atom "run", p, a] => runCase p a
   | some [.atom "binop", .atom a, .atom l, .atom r] =>
     if D01_tupleConcat (a == "1") (l == "1") (r == "1") then "tupleConcat" else "-"
+  | some [.atom "call", .atom a, .atom l, .atom r] =>
+    if D01_seqLeniency (a == "1") (l == "1") (r == "1") then "C04:seqLeniency" else "-"
+  | some [.atom "conv", .atom a, .atom l, .atom r] =>
+    if D01_setDisplayOrder (a == "1") (l == "1") (r == "1") then "setDisplayOrder" else "-"
   | some [.atom "mem", o, t] =>
     match o.toObj, t.toTy with
     | some o, some t => b2s (mem liveTable o t)
